@@ -8,7 +8,7 @@ import copy
 import itertools
 import re
 
-from ..common import canon, load_impl
+from ..common import budget_names_limit, canon, load_impl
 from ..engine.shard import Acc, Family, split
 from ..engine.tape import explore
 from ..gen import ast, chains
@@ -232,8 +232,8 @@ def sweep(model, case, acc, prefix, fetch=None, loader=None, effects_only=False)
         # reference-free checks
         res = x['result']
         if res[0] == 'raise' and res[2].startswith(MSG):
-            if res[2] != f'{MSG} ({lim})':
-                acc.violation(c2, f'{MSG} ({lim})', res[2], 'the error does not name the limit')
+            if not budget_names_limit(res[2], lim):
+                acc.violation(c2, f'{MSG} ({lim})', res[2], 'the error names a number that is not the limit')
                 ok = False
             if x['count'] != lim + 1:
                 acc.violation(c2, lim + 1, x['count'], 'statementCount after the abort is not L + 1 (exactly L statements started)')
@@ -513,7 +513,7 @@ def check_selfcount(case, acc):
                 return
             continue
         res = x['result']
-        if res[0] != 'raise' or res[2] != f'{MSG} ({lim})':
+        if res[0] != 'raise' or not str(res[2]).startswith(MSG) or not budget_names_limit(res[2], lim):
             acc.violation(c3, f'{MSG} ({lim})', res, f'the run starts {n} statements but is not aborted under limit {lim}')
             return
         if x['count'] != lim + 1:
